@@ -76,3 +76,11 @@ pub use rscel_macro as macros;
 
 #[cfg(test)]
 mod tests;
+
+/// Verification hooks (only with `--cfg rscel_verif`): makes the token types
+/// nameable so that an external harness can inspect the tokenizer's output.
+#[cfg(rscel_verif)]
+pub mod verif_hooks {
+    pub use crate::compiler::tokenizer::TokenWithLoc;
+    pub use crate::compiler::tokens::{FStringSegment, Token};
+}
